@@ -955,7 +955,12 @@ func (u *U) liveMemo(any bool) *J {
 	}
 	if u.r.N(3) == 0 {
 		swap.Keys = append(swap.Keys, "interface_provider")
-		swap.A = append(swap.A, jstr(u.c.Accs[2].Addr.String()))
+		prov := u.c.Accs[2].Addr.String()
+		if u.r.N(3) == 0 {
+			// an otherwise executable memo whose provider is not an address of this chain: nothing validates it before the swap runs
+			prov = u.r.Pick("garbage", "cosmos1sender", "sunrise1qqqqqqqqqqqqqqqqqqqqqqqqqqqqqqqqqqqqqq", prov[:len(prov)-1], strings.ToUpper(prov), " ")
+		}
+		swap.A = append(swap.A, jstr(prov))
 	}
 	if u.r.N(3) == 0 {
 		swap.Keys = append(swap.Keys, "forward")
